@@ -180,7 +180,29 @@ def run_hypothesis(mod, ctx, strategy, n_examples, seed, shrink_budget=90.0):
     return None
 
 
+def _die_with_parent():
+    """Workers die (with their whole process group: forked children, manager servers of the code under
+    test) when the orchestrator dies or asks them to."""
+    import ctypes
+    import signal
+
+    def _term(*a):
+        try:
+            os.killpg(os.getpgrp(), signal.SIGKILL)
+        finally:
+            os._exit(3)
+    signal.signal(signal.SIGTERM, _term)
+    try:
+        ctypes.CDLL("libc.so.6", use_errno=True).prctl(1, signal.SIGTERM)   # PR_SET_PDEATHSIG
+    except Exception:
+        pass
+    if os.getppid() == 1:
+        _term()
+
+
 def worker_main(prop_id, tier, seed, shard, nshards, out_path):
+    if os.getpgrp() == os.getpid():
+        _die_with_parent()
     t0 = time.time()
     res = {"violation": None, "error": None}
     ctx = Ctx(prop_id, tier)
@@ -277,6 +299,14 @@ def write_evidence(prop_id, mod, tier, seed, merged, wall, violations, extra=Non
     return path
 
 
+def _kill_group(p):
+    import signal
+    try:
+        os.killpg(p.pid, signal.SIGKILL)
+    except (ProcessLookupError, PermissionError, OSError):
+        pass
+
+
 def orchestrate(prop_id, tier, seed, nshards=None, budget=None):
     t0 = time.time()
     mod = load_prop(prop_id)
@@ -313,12 +343,23 @@ def orchestrate(prop_id, tier, seed, nshards=None, budget=None):
         print(l)
 
     procs = []
+    import signal
+
+    def _on_signal(signum, frame):
+        for _, _, p in procs:
+            _kill_group(p)
+        common.cleanup_scratch()
+        os._exit(2)
+    signal.signal(signal.SIGTERM, _on_signal)
+    signal.signal(signal.SIGINT, _on_signal)
     env = dict(os.environ, PYTHONHASHSEED="0", HSVERIF_SCRATCH=base)
     for sh in range(nshards):
         out = os.path.join(base, f"res{sh}.json")
         cmd = [sys.executable, os.path.join(common.VERIF_DIR, "check.py"), prop_id, "--tier", tier,
                "--seed", str(seed), "--worker", str(sh), str(nshards), out]
-        procs.append((sh, out, subprocess.Popen(cmd, env=env, cwd=common.VERIF_DIR)))
+        # own session per worker: the whole process group (forked children, manager servers of the
+        # code under test) can be killed with it
+        procs.append((sh, out, subprocess.Popen(cmd, env=env, cwd=common.VERIF_DIR, start_new_session=True)))
     results, violation, errors = {}, None, []
     pending = dict((sh, (out, p)) for sh, out, p in procs)
     while pending:
@@ -340,13 +381,15 @@ def orchestrate(prop_id, tier, seed, nshards=None, budget=None):
                 errors.append((sh, f"worker exited {rc} without a result"))
         if violation is not None or errors:
             for sh, (out, p) in pending.items():
-                p.kill()
+                _kill_group(p)
             for sh, (out, p) in pending.items():
                 p.wait()
             pending = {}
             break
         if pending:
             time.sleep(0.05)
+    for sh, out, p in procs:   # stragglers (children of finished workers)
+        _kill_group(p)
     merged = {"evaluations": 0, "keys": set(), "classes": {}, "samples": [], "excluded": {},
               "shards": nshards}
     for sh in sorted(results):
